@@ -52,6 +52,17 @@ Theorem colorspace_roundtrip cs j lossless ids : cs <> CS_UNKNOWN ->
   decide_colorspace (ncomp_of cs) (header_info cs j) lossless ids = cs.
 Proof. destruct cs; intros H; try congruence; reflexivity. Qed.
 
+(* without JFIF / Adobe marker (the application switched them off) the component ids decide: the ids jpeg_set_colorspace
+   gives to YCbCr (1,2,3; lossy) and to RGB ('R','G','B'; any process) are recognised; 2 or more than 4 components
+   are JCS_UNKNOWN *)
+Theorem colorspace_by_ids :
+  decide_colorspace 3 hinfo_init false [1; 2; 3] = CS_YCbCr /\
+  (forall lossless, decide_colorspace 3 hinfo_init lossless [82; 71; 66] = CS_RGB) /\
+  (forall lossless ids, decide_colorspace 1 hinfo_init lossless ids = CS_GRAY) /\
+  (forall lossless ids, decide_colorspace 4 hinfo_init lossless ids = CS_CMYK) /\
+  (forall h lossless ids, decide_colorspace 2 h lossless ids = CS_UNKNOWN /\ decide_colorspace 5 h lossless ids = CS_UNKNOWN).
+Proof. repeat split; try reflexivity; intros []; reflexivity. Qed.
+
 (* density and units come back whenever a JFIF marker is written (grayscale, YCbCr) *)
 Theorem density_roundtrip cs j : writes_jfif cs = true ->
   let h := header_info cs j in
